@@ -285,10 +285,40 @@ Definition run_linemarker (x : sx) : sx :=
   | _ => err "bad case"
   end.
 
+(* ---------------- timestamp ----------------
+   case = ( x ... ): instants x nanoseconds after 1_000_000 s before the Unix epoch.  `Timestamp::from(SystemTime)` is
+   (floor (t / 10^9), t mod 10^9) for the signed distance t from the epoch in nanoseconds: ts_of (Model/PpCache.v).
+   result = ( (negative |seconds| nanoseconds class) ... ), class = first instant with the same value: the digest of a
+   header mentioning __TIMESTAMP__ is a function of exactly this value *)
+Fixpoint first_N (x : N) (l : list N) (i : N) : N :=
+  match l with [] => i | y :: r => if N.eqb y x then i else first_N x r (i + 1) end.
+
+Fixpoint ts_rows (seen todo : list N) : list sx :=
+  match todo with
+  | [] => []
+  | x :: r =>
+      let '(neg, s, ns) := ts_of x in
+      SL [sbool neg; SN s; SN ns; SN (first_N x seen 0)] :: ts_rows (seen ++ [x]) r
+  end.
+
+Definition run_timestamp (x : sx) : sx := SL (ts_rows [] (map get_N (get_L x))).
+
+(* ---------------- manyinc ----------------
+   case = ( n edit ): one result with n distinct includes, however many (C04_add_result_all_or_nothing: all of them are
+   stored; the entry-wide limit only clears OTHER results), a lookup on the untouched tree hits, a lookup after a
+   same-size edit of any one of them misses (C04_lookup_sound) *)
+Definition run_manyinc (x : sx) : sx :=
+  match x with
+  | SL [n; _] => SL [SN (get_N n); SN (if N.eqb (get_N n) 0 then 0 else 1); SN 0]
+  | _ => err "bad case"
+  end.
+
 Definition dispatch (leg : list N) (x : sx) : sx :=
   if bytes_eqb leg (bs "timemacro") then run_timemacro x
   else if bytes_eqb leg (bs "toonew") then run_toonew x
   else if bytes_eqb leg (bs "ppcache") then run_ppcache x
   else if bytes_eqb leg (bs "ppkey") then run_ppkey x
   else if bytes_eqb leg (bs "linemarker") then run_linemarker x
+  else if bytes_eqb leg (bs "timestamp") then run_timestamp x
+  else if bytes_eqb leg (bs "manyinc") then run_manyinc x
   else err "unknown leg".
